@@ -33,7 +33,7 @@ func init() {
 		},
 		Run: runC03,
 		Require: []string{"cp_put/write.psg", "cp_put/write.pix", "cp_del/write.psg", "cp_compact/remove.psg", "cp_compact/write.psg",
-			"cp_close/write.pmt", "cp_close/remove", "cp_open/create", "torn_images", "cp_put/truncate.pix", "cp_put/create.psg"},
+			"cp_close/write.pmt", "cp_close/remove", "cp_open/create", "torn_images", "cp_put/truncate.pix", "cp_put/create.psg", "failed_segment_writes"},
 		Exhaustive: func(tier string, stats map[string]int64) bool { return false },
 	})
 }
@@ -121,6 +121,14 @@ func runC03(c *core.Ctx) {
 	ks := crashKeys(rng, seed)
 	cfg := smallCrashConfig(rng, c.Case%4 == 3)
 	p := histParams{NOps: 60 + rng.Intn(240), Reopen: true, LiveCheck: true, SyncPct: 6, CompactPct: 10}
+	if c.Case%2 == 1 {
+		// every other history: a few Put/Delete calls have one segment write fail (as a whole, or after a prefix). Such a
+		// call returns an error and counts as "in flight" for its own key until an acknowledged call settles it; the
+		// handle keeps being used, and every acknowledged call after it is judged at every later crash point.
+		core.HBFaults = true
+		defer func() { core.HBFaults = false }()
+		p.FaultyWritePct = 5
+	}
 	valIdx := 0
 	hb, err := genHistory(c, rng, nil, nil, cfg, ks, p, &valIdx)
 	if err != nil {
